@@ -11,5 +11,5 @@ if rc==1 and obls:
     sv=re.findall(r'solver=(\S+)',out)
     meta['detected_by']={"check":f"./check {prop} quick","obligation":obls[0],"exit":1,"all_failed":obls[:8],"verdicts":sv[:8],"replayed":"replayed-on-real-code" in out}
 else:
-    meta['detected_by']={"check":f"./check {prop} quick","exit":rc,"note":"MISSED"}
+    meta['detected_by']={"check":f"./check {prop} quick","exit":rc,"note":"PATCH DOES NOT APPLY (port it)" if "patch does not apply" in out else "MISSED"}
 json.dump(meta,open(p,'w'),indent=1,ensure_ascii=False)
